@@ -10,14 +10,18 @@
 package c05
 
 import (
+	"bufio"
 	"bytes"
 	"encoding/binary"
 	"fmt"
+	"io"
 	"math/rand"
+	"net"
 	"reflect"
 	"runtime"
 	"strings"
 	"testing"
+	"testing/iotest"
 
 	"verifharness/checks/c02"
 	"verifharness/kit"
@@ -490,6 +494,68 @@ func (m *mon) retained(ks []kept, after string) (all bool) {
 	return all
 }
 
+// reader shapes for the multi-frame streams
+var readerModes = []string{"whole-buffer", "random-chunks", "one-byte", "pipe-segments", "bufio16-over-chunks"}
+
+// chunkReader returns at most the next pre-drawn chunk size per Read call (sizes 1..40, so that
+// 24-byte headers are regularly split).
+type chunkReader struct {
+	src  io.Reader
+	next func() int
+}
+
+func (c *chunkReader) Read(p []byte) (int, error) {
+	n := c.next()
+	if n < len(p) {
+		p = p[:n]
+	}
+	return c.src.Read(p)
+}
+
+// deliver wraps the stream in the named reader shape. finish releases what the shape holds.
+func deliver(rng *rand.Rand, mode string, base *bytes.Reader, stream []byte) (io.Reader, func()) {
+	sizes := make([]int, 64)
+	for i := range sizes {
+		sizes[i] = 1 + rng.Intn(40)
+		if rng.Intn(6) == 0 {
+			sizes[i] = 1 + rng.Intn(4000)
+		}
+	}
+	at := 0
+	next := func() int { at++; return sizes[at%len(sizes)] }
+	switch mode {
+	case "random-chunks":
+		return &chunkReader{src: base, next: next}, func() {}
+	case "one-byte":
+		return iotest.OneByteReader(base), func() {}
+	case "bufio16-over-chunks":
+		return bufio.NewReaderSize(&chunkReader{src: base, next: next}, 16), func() {}
+	case "pipe-segments":
+		// a synchronous in-memory connection: the writer side sends the stream in segments that do
+		// not line up with frame boundaries; every Read on the other side gets at most one segment
+		pr, pw := net.Pipe()
+		done := make(chan struct{})
+		go func() {
+			defer close(done)
+			buf := make([]byte, 4000)
+			for {
+				n, err := base.Read(buf[:next()])
+				if n > 0 {
+					if _, werr := pw.Write(buf[:n]); werr != nil {
+						return
+					}
+				}
+				if err != nil {
+					pw.Close()
+					return
+				}
+			}
+		}()
+		return pr, func() { pr.Close(); <-done }
+	}
+	return base, func() {}
+}
+
 func cmdOf(frame []byte) [12]byte {
 	var c [12]byte
 	copy(c[:], frame[4:16])
@@ -790,7 +856,7 @@ func TestC05(t *testing.T) {
 	}
 	r := kit.Start(t, "C05", "exploration")
 	defer r.Finish()
-	r.Rule("all 16 message kinds with boundary-biased field values: WriteMessage→ReadMessage equality (field-wise); retention: decoded messages held by the caller are re-compared after later reads (the next messages, the corrupted frames, all remaining frames of 2-31-frame streams); from every honest frame: single-byte corruptions (header: every byte × {+1, ^0x80, random} or all 255 values in thorough; payload: every byte if <=512 else sampled), truncations, length games, wrong magics; hand-built frames: unknown commands, payload at / above MAX_PAYLOAD_LEN; hostile payloads behind honest headers (mutations, count fields rewritten to boundary/huge values) and random streams decoded in a child process under ulimit -v; distinct = (kind, payload digest) or (kind, corruption class, demanded verdict, observed verdict) or (mutation label, outcome, panic site)")
+	r.Rule("all 16 message kinds with boundary-biased field values: WriteMessage→ReadMessage equality (field-wise); retention: decoded messages held by the caller are re-compared after later reads (the next messages, the corrupted frames, all remaining frames of 2-31-frame streams); the streams are delivered through five io.Reader shapes (whole buffer, random 1-40-byte chunks, one byte per Read, net.Pipe segments, 16-byte bufio over chunks); from every honest frame: single-byte corruptions (header: every byte × {+1, ^0x80, random} or all 255 values in thorough; payload: every byte if <=512 else sampled), truncations, length games, wrong magics; hand-built frames: unknown commands, payload at / above MAX_PAYLOAD_LEN; hostile payloads behind honest headers (mutations, count fields rewritten to boundary/huge values) and random streams decoded in a child process under ulimit -v; distinct = (kind, payload digest) or (kind, corruption class, demanded verdict, observed verdict) or (mutation label, outcome, panic site)")
 	r.Assume("rejection is demanded exactly when the checker, looking at the corrupted frame alone, finds: magic != network magic, length > MAX_PAYLOAD_LEN, fewer payload bytes than announced, sha256d(payload)[:4] != header checksum, or a command field that is not one of the 16 NUL-padded command names; otherwise (e.g. ping↔pong) nothing is asserted")
 	r.Assume("a payload of exactly MAX_PAYLOAD_LEN bytes is within the limit (must be accepted); Addr / Inv messages are generated with at most MAX_ADDR_NODE_CNT / MAX_INV_BLK_CNT entries (longer lists are truncated by design)")
 	r.Assume(fmt.Sprintf("hostile streams are read with the address space limited to %d KiB; a process death is reported like a panic", c02.VLimitKB))
@@ -877,32 +943,41 @@ func TestC05(t *testing.T) {
 			want = append(want, f)
 			stream = append(stream, f.frame...)
 		}
-		rd := bytes.NewReader(stream)
+		// the same byte stream is delivered through one of five io.Reader shapes: ReadMessage takes an
+		// io.Reader, and a reader may return fewer bytes than asked for (a TCP connection does)
+		base := bytes.NewReader(stream)
+		mode := readerModes[i%len(readerModes)]
+		rd, finish := deliver(rng, mode, base, stream)
 		var got []kept
 		okAll := true
 		for j := 0; j < k; j++ {
 			var msg mt.Message
 			var err error
 			if p := kit.Catch(func() { msg, _, err = mt.ReadMessage(rd) }); p != nil || err != nil || msg == nil {
-				m.violationOnce("stream-frame-rejected", fmt.Sprintf("frame %d of %d on one stream: err=%v panic=%v", j, k, err, p), kit.Hex(clip(stream, 8192)))
+				m.violationOnce("stream-frame-rejected:"+mode, fmt.Sprintf("honest frame %d of %d (%s) read through a %s reader: err=%v panic=%v", j, k, want[j].g.kind, mode, err, p), kit.Hex(clip(stream, 8192)))
 				okAll = false
 				break
 			}
 			got = append(got, kept{g: want[j].g, msg: msg, frame: want[j].frame})
 		}
 		if okAll {
-			same := m.retained(got, fmt.Sprintf("reading the remaining frames of a %d-frame stream", k))
-			if rd.Len() != 0 {
-				m.violationOnce("stream-not-consumed-exactly", fmt.Sprintf("%d bytes left after %d frames", rd.Len(), k), kit.Hex(clip(stream, 8192)))
-			} else if _, _, err := mt.ReadMessage(rd); err == nil {
-				m.violationOnce("stream-read-past-end", "a message was returned from an exhausted stream", nil)
+			same := m.retained(got, fmt.Sprintf("reading the remaining frames of a %d-frame stream (%s reader)", k, mode))
+			if _, _, err := mt.ReadMessage(rd); err == nil {
+				m.violationOnce("stream-read-past-end:"+mode, "a message was returned from an exhausted stream", nil)
+			} else if base.Len() != 0 {
+				m.violationOnce("stream-not-consumed-exactly:"+mode, fmt.Sprintf("%d bytes never requested after %d frames", base.Len(), k), kit.Hex(clip(stream, 8192)))
 			} else if same {
 				r.Count("streams_ok", 1)
+				r.Count("streams_ok_"+mode, 1)
 				r.Count("stream_frames_retained", k)
 			}
-			r.Distinct("stream", k, want[0].g.kind, want[k-1].g.kind, len(stream))
+			r.Distinct("stream", mode, k, want[0].g.kind, want[k-1].g.kind, len(stream))
 		}
+		finish()
 		r.Eval(1)
+	}
+	for _, mode := range readerModes {
+		r.Require("streams_ok_"+mode, nStreams/len(readerModes)-1)
 	}
 
 	// unknown commands behind otherwise perfect headers
